@@ -1,5 +1,5 @@
 """Parser-family properties: C01 C02 C09 C10 C11 C12 C13 C14 C19 (Value / IgnoredAny / RawValue / streams)."""
-import itertools, random, collections
+import itertools, random, collections, re
 import engine, gen
 from gen import hx
 from checks import register, Ctx, log
@@ -255,6 +255,7 @@ def run_c02(ctx):
                 ctx.sample({'op': 'pv', 'cfg': cfg, 'input_hex': hx(d)})
         docs = list(value_docs(ctx, 3000))
         ctx.violations += judge_sources(ctx, cfg, docs, ops=('pv',), srcs=['s', 'b', 'r1', 'rx5'], what_prefix='c02-')
+        ctx.violations += judge_entry_points(ctx, cfg, docs + list(itertools.islice(gen.enum_tokens(3), 0, None, 5)))
     ctx.violations += judge_private_tokens(ctx, acceptance_only=False)
 
 def judge_c11(ctx, cfg, inputs, aux=None):
@@ -348,6 +349,45 @@ def judge_pos(ctx, cfg, n):
     ctx.count('reader-position-op-traces', len(lines))
     for l in lines[:2]:
         ctx.sample({'op': 'pos', 'case': l})
+    return v
+
+def judge_entry_points(ctx, cfg, docs):
+    """entry points and accessors that must be the same thing, evaluated on the implementation: from_str / str::parse::<Value> / Map<String,Value> as
+    target / IntoDeserializer for Value and Map / FromIterator for Value / Value::from(int) vs to_value / the is_* and as_* accessors of Value among each
+    other and against Number's"""
+    ins = [d for d in docs if gen.is_utf8(d)]
+    outs = ctx.impl(cfg, ['eq %s' % hx(d) for d in ins])
+    v = []
+    for d, o in zip(ins, outs):
+        if o.startswith('same') or o == 'SKIP':
+            continue
+        v.append({'what': 'entry-points-disagree', 'cfg': cfg, 'input': hx(d), 'expected': 'same result / consistent accessors', 'actual': o[:300], 'shrinkable': False})
+    ctx.count('entry-point-relations', len(ins))
+    return v
+
+def judge_io_conversion(ctx, cfg, docs):
+    """io::Error::from(serde_json::Error) and Error::source(): Eof -> UnexpectedEof, Syntax / Data -> InvalidData, Io -> the reader's own kind; the
+    four is_* predicates agree with classify() (checked inside the harness for EVERY error every check prints)"""
+    lines, meta = [], []
+    for d in docs:
+        for k in ['-'] + list(range(0, len(d) + 1, max(1, len(d) // 6))):
+            kind = 2 + (len(d) + (0 if k == '-' else k)) % 4
+            lines.append('ie %s %d %s' % (k, kind, hx(d)))
+            meta.append((d, k, kind))
+    outs = ctx.impl(cfg, lines)
+    v = []
+    want_kind = {'eof': 'UnexpectedEof', 'syntax': 'InvalidData', 'data': 'InvalidData'}
+    for (d, k, kind), o in zip(meta, outs):
+        for part in o.split(' '):
+            if part == 'ok':
+                continue
+            m = re.fullmatch(r'(io|eof|syntax|data)>(\w+):(src|nosrc)', part)
+            ok = bool(m) and m.group(3) == 'nosrc' and (m.group(2) == ('UnexpectedEof' if kind == 4 else 'kind%d' % kind) if m.group(1) == 'io' else m.group(2) == want_kind[m.group(1)])
+            if not ok:
+                v.append({'what': 'io-error-conversion', 'cfg': cfg, 'input': hx(d), 'fail_at': k, 'kind': kind,
+                          'expected': 'Eof -> UnexpectedEof, Syntax/Data -> InvalidData, Io -> kind%d; is_* = classify()' % kind, 'actual': o, 'shrinkable': False})
+                break
+    ctx.count('io-error-conversions', len(lines))
     return v
 
 # ================================================================== C09: sources agree (implementation vs implementation)
@@ -778,6 +818,7 @@ def run_c13(ctx):
                   [s for s in itertools.islice(stream_inputs(ctx, 3000), 0, None, 11) if len(s) < 60][:150 if ctx.tier == 'quick' else 1500]
         ctx.violations += judge_c13_stream(ctx, cfg, streams)
         ctx.violations += judge_c13_typed(ctx, cfg)
+        ctx.violations += judge_io_conversion(ctx, cfg, docs[:200] + [b'[300]', b'[1,2]', b'[1', b'[1,]', b'x'])
         ctx.violations += writer_faults(ctx, cfg)
         for d in docs[:4]:
             ctx.sample({'op': 'io', 'cfg': cfg, 'doc_hex': hx(d), 'fail_at': 'every k in 0..=len', 'kinds': 'TimedOut, BrokenPipe, ...'})
